@@ -265,6 +265,8 @@ func init() {
 			switch i % 4 {
 			case 0:
 				base = dceProgram(r)
+			case 1:
+				base = scopesProgram(r)
 			default:
 				base = randomProgram(r, genOpts{Inputs: i%3 == 0, Errors: 0.004, MaxStmts: 7, Closures: true, NoLoopClosures: true})
 			}
